@@ -98,7 +98,7 @@ def enc_code(src, mode):
             return {'src': src, 'body': [enc_stmt(s) for s in tree.body]}, True
         tree = ast.parse(src, mode='eval')
         return {'src': src, 'expr': enc_expr(tree.body)}, True
-    except (Unsupported, SyntaxError, ValueError, RecursionError):
+    except (Unsupported, SyntaxError, ValueError, RecursionError, MemoryError):
         return {'src': src, 'unsupported': True}, False
 
 
